@@ -552,7 +552,12 @@ func (x *runner) write(p *peer, oob bool) {
 		if x.cfg.ds > 0 && c.nmsg%x.cfg.ds == 0 {
 			want += x.cfg.ps
 		}
-		c.conn.WaitOut(want, 2*time.Second)
+		// The parity of a group is skipped by the encoder when the two latest data packets are
+		// more than maxFECEncodeLatency of real time apart, so it is never waited for at length:
+		// a long wait here would itself open the next gap (and the one after that).
+		if c.conn.WaitOut(1, 2*time.Second) >= 1 && want > 1 {
+			c.conn.WaitOut(want, 20*time.Millisecond)
+		}
 	}
 	for _, pk := range c.conn.Take() {
 		c.pending = append(c.pending, pk.Data)
